@@ -65,6 +65,9 @@ def check(ck: Checker) -> None:
     from . import round8 as _r8
 
     _r8.fs_hash_by_requested_name(ck, "C14.select")
+    from . import round11 as _r11
+
+    _r11.text_chars_exact(ck, "C14.ratio")
 
 
 
